@@ -12,6 +12,7 @@ from vlib import gen, observe, pdbio, common
 from vlib.pdbio import Atom
 
 PROPERTY = "C14"
+REDUCE_KEYS = ["pdb"]
 LEVEL = "exploration"
 RULE = ("structures (several chains incl. lower-case/digit ids, insertion codes, negative numbers, ligands, ions, "
         "bridged and free CYS) x residue lists rendered as chain:num[icode]: random subsets, singletons, all residues, "
